@@ -974,7 +974,11 @@ class PhaseField(_Simu):
         except AttributeError:
             resumeIter = ""
 
-        resumeIter += self.__resumeIter
+        try:
+            resumeIter += self.__resumeIter
+        except AttributeError:
+            # Results_Set_Iteration_Summary has not been called yet
+            pass
 
         return resumeIter
 
